@@ -15,7 +15,7 @@ use pilota::thrift::{
     binary_le::{TAsyncBinaryProtocol as TAsyncBinaryLeProtocol, TBinaryProtocol as TBinaryLeProtocol},
     binary_unsafe::{TBinaryUnsafeInputProtocol, TBinaryUnsafeOutputProtocol},
     compact::{TAsyncCompactProtocol, TCompactInputProtocol, TCompactOutputProtocol},
-    Message, ThriftException,
+    ApplicationException, Message, TAsyncInputProtocol, TInputProtocol, TMessageIdentifier, ThriftException,
 };
 
 // ---- the emitted code (written by pv-gen-build under $PV_GEN_OUT at check time)
@@ -124,6 +124,8 @@ pub struct Case<'a> {
     pub pk: Pk,
     pub mode: Mode,
     pub data: Vec<u8>,
+    /// `msg`: offset and length of the method name inside `data`
+    pub extra: Vec<usize>,
 }
 
 fn parse_pk(s: &str) -> Result<Pk, String> {
@@ -352,7 +354,7 @@ pub fn run<T: Message + Debug + Default>(c: &Case) -> String {
                 Ok((n, bytes, note)) => format!("SIZE {} ENC {}{}", n, hex(&bytes), note),
                 Err(e) => format!("ENCERR {}", err_class(&e)),
             };
-            let c0 = Case { op: "dec", pk: c.pk, mode: Mode::Sync, data: vec![0u8] };
+            let c0 = Case { op: "dec", pk: c.pk, mode: Mode::Sync, data: vec![0u8], extra: vec![] };
             let empty = match catch_unwind(AssertUnwindSafe(|| decode_any::<T>(&c0))) {
                 Err(_) => "panic".to_string(),
                 Ok(None) => "hang".to_string(),
@@ -369,6 +371,7 @@ pub fn run<T: Message + Debug + Default>(c: &Case) -> String {
             }
             last
         }
+        "msg" => msg_twice::<T>(c),
         _ => format!("BADCASE unknown op {}", c.op),
     }
 }
@@ -423,6 +426,165 @@ fn mem_once<T: Message>(c: &Case) -> String {
     format!("{} LIVE {} PEAK {} REFS {}", outcome, residual, peak, if unique { 0 } else { 1 })
 }
 
+// ---------------------------------------------------------------- C19, message level
+/// what a server does with one request on ONE protocol object: read_message_begin, the body decoder, read_message_end
+/// (when the body was accepted).  Returns (identifier, body result if the envelope was accepted, bytes left)
+type MsgParts<T> = (Result<TMessageIdentifier, ThriftException>, Option<Result<T, ThriftException>>);
+
+fn msg_sync<T: Message>(pk: Pk, b: &mut Bytes) -> MsgParts<T> {
+    fn go<T: Message, P: TInputProtocol>(p: &mut P) -> MsgParts<T> {
+        let id = p.read_message_begin();
+        if id.is_err() {
+            return (id, None);
+        }
+        let body = T::decode(p);
+        let body = match body {
+            Ok(v) => p.read_message_end().map(|_| v),
+            Err(e) => Err(e),
+        };
+        (id, Some(body))
+    }
+    match pk {
+        Pk::Binary => go::<T, _>(&mut TBinaryProtocol::new(&mut *b, true)),
+        Pk::BinaryLe => go::<T, _>(&mut TBinaryLeProtocol::new(&mut *b, true)),
+        Pk::Compact => go::<T, _>(&mut TCompactInputProtocol::new(&mut *b)),
+        Pk::Unchecked => go::<T, _>(&mut unsafe { TBinaryUnsafeInputProtocol::new(&mut *b) }),
+    }
+}
+
+fn msg_async<T: Message>(pk: Pk, data: Vec<u8>, chunk: usize, pend: bool) -> Option<MsgParts<T>> {
+    async fn go<T: Message, P: TAsyncInputProtocol>(p: &mut P) -> MsgParts<T> {
+        let id = p.read_message_begin().await;
+        if id.is_err() {
+            return (id, None);
+        }
+        let body = T::decode_async(p).await;
+        let body = match body {
+            Ok(v) => p.read_message_end().await.map(|_| v),
+            Err(e) => Err(e),
+        };
+        (id, Some(body))
+    }
+    let n = data.len();
+    let budget = 64 * (n + 64) * 4;
+    let mut rd = asyncrd::Scripted::new(data, chunk, pend);
+    match pk {
+        Pk::Binary | Pk::Unchecked => {
+            let mut p = TAsyncBinaryProtocol::new(&mut rd);
+            asyncrd::block_on(go::<T, _>(&mut p), budget)
+        }
+        Pk::BinaryLe => {
+            let mut p = TAsyncBinaryLeProtocol::new(&mut rd);
+            asyncrd::block_on(go::<T, _>(&mut p), budget)
+        }
+        Pk::Compact => {
+            let mut p = TAsyncCompactProtocol::new(&mut rd);
+            asyncrd::block_on(go::<T, _>(&mut p), budget)
+        }
+    }
+}
+
+static NAME_COUNTER: AtomicUsize = AtomicUsize::new(0);
+
+/// every run gets a method name nobody has seen before (same length, ASCII): a process-wide table keyed by the name
+/// cannot have it yet
+fn fresh_name(data: &mut [u8], off: usize, len: usize) {
+    let mut n = NAME_COUNTER.fetch_add(1, Relaxed);
+    for i in 0..len {
+        if off + i >= data.len() {
+            break;
+        }
+        data[off + i] = if i < 12 { b'a' + (n % 16) as u8 } else { b'z' };
+        n /= 16;
+    }
+}
+
+/// twice (the first run may initialise process-wide lazies such as hash seeds), each with a fresh name; the second is reported
+fn msg_twice<T: Message>(c: &Case) -> String {
+    let mut last = String::new();
+    for _ in 0..2 {
+        last = msg_once::<T>(c);
+    }
+    last
+}
+
+/// `<ok|err|panic|hang> STAGE <0 envelope rejected|1 body rejected|2 complete> LIVE <residual after EVERYTHING was dropped>
+///  PEAK <..> REFS <input still shared at the end> MID <input still shared while only the returned value is alive>`
+fn msg_once<T: Message>(c: &Case) -> String {
+    let mut data = c.data.clone();
+    data.shrink_to_fit();
+    if c.extra.len() >= 2 {
+        fresh_name(&mut data, c.extra[0], c.extra[1]);
+    }
+    let cap = data.capacity();
+    let live0 = LIVE.load(Relaxed);
+    PEAK.store(live0, Relaxed);
+    let mut stage = 0;
+    let mut mid = false;
+    let (outcome, unique) = match c.mode {
+        Mode::Sync => {
+            let mut input = Bytes::from(data);
+            let keep = input.clone(); // our own second handle
+            let r = catch_unwind(AssertUnwindSafe(|| msg_sync::<T>(c.pk, &mut input)));
+            drop(input);
+            let o = match r {
+                Err(_) => "panic",
+                Ok((id, body)) => {
+                    let o = match (&id, &body) {
+                        (Err(_), _) => "err",
+                        (Ok(_), Some(Ok(_))) => {
+                            stage = 2;
+                            "ok"
+                        }
+                        (Ok(_), _) => {
+                            stage = 1;
+                            "err"
+                        }
+                    };
+                    // the identifier goes first: what is retained now is what the returned value reaches
+                    drop(id);
+                    if stage == 2 {
+                        mid = !keep.is_unique();
+                    }
+                    drop(body);
+                    o
+                }
+            };
+            let u = keep.is_unique();
+            drop(keep);
+            (o, u)
+        }
+        Mode::Async { chunk, pend } => {
+            let r = catch_unwind(AssertUnwindSafe(|| msg_async::<T>(c.pk, data, chunk, pend)));
+            let o = match r {
+                Err(_) => "panic",
+                Ok(None) => "hang",
+                Ok(Some((id, body))) => {
+                    let o = match (&id, &body) {
+                        (Err(_), _) => "err",
+                        (Ok(_), Some(Ok(_))) => {
+                            stage = 2;
+                            "ok"
+                        }
+                        (Ok(_), _) => {
+                            stage = 1;
+                            "err"
+                        }
+                    };
+                    drop(id);
+                    drop(body);
+                    o
+                }
+            };
+            (o, true)
+        }
+    };
+    let peak = PEAK.load(Relaxed).saturating_sub(live0);
+    let live1 = LIVE.load(Relaxed);
+    let residual = live1 as isize + cap as isize - live0 as isize;
+    format!("{} STAGE {} LIVE {} PEAK {} REFS {} MID {}", outcome, stage, residual, peak, if unique { 0 } else { 1 }, if mid { 1 } else { 0 })
+}
+
 fn run_line(line: &str) -> Result<String, String> {
     let t: Vec<&str> = line.split(' ').collect();
     if t.len() < 4 {
@@ -439,7 +601,12 @@ fn run_line(line: &str) -> Result<String, String> {
         }
         (parse_mode(t[4])?, unhex(t[5])?)
     };
-    let c = Case { op, pk, mode, data };
+    let extra: Vec<usize> = t.iter().skip(6).filter_map(|x| x.parse().ok()).collect();
+    let c = Case { op, pk, mode, data, extra };
+    if op == "msg" && ty == "@appex" {
+        // the runtime's own Message impl (pilota/src/thrift/error/application.rs) as the body
+        return Ok(msg_twice::<ApplicationException>(&c));
+    }
     dispatch(cfg, ty, &c).ok_or_else(|| format!("unknown type {cfg} {ty}"))
 }
 
